@@ -2012,8 +2012,8 @@ static int gen_union_clone(fb_output_t *out, fb_compound_type_t *ct)
         case vt_string_type:
             symbol_name(sym, &n, &s);
             fprintf(out->fp,
-                "    case %u: return %s_as_%.*s(%sstring_clone(B, u.value));\n",
-                (unsigned)member->value.u, snt.text, n, s, nsc);
+                "    case %u: return %s_as_%.*s(%sstring_clone(B, %sstring_cast_from_union(u)));\n",
+                (unsigned)member->value.u, snt.text, n, s, nsc, nsc);
             break;
         case vt_missing:
             break;
